@@ -12,4 +12,6 @@
 // See the License for the specific language governing permissions and
 // limitations under the License.
 
+// +build !verif
+
 // Empty assembly file so empty func definitions work.
